@@ -217,4 +217,64 @@ theorem specialFromScalar_ok (size stored f : Nat) (h : stored ≤ size) :
   simp only [List.append_nil] at this
   rw [this]; rfl
 
+/-- a stream that is disciplined from `f`, followed by one that is disciplined from nothing -/
+theorem disciplined_append_any (a b : List Ev) (f : Nat) (ha : disciplined f a = true) (hb : disciplined 0 b = true) :
+    disciplined f (a ++ b) = true := by
+  induction a generalizing f with
+  | nil => exact disciplined_mono b 0 f (Nat.zero_le _) hb
+  | cons e es ih =>
+    cases e with
+    | check k => simp only [List.cons_append, disciplined] at ha ⊢; exact ih _ ha
+    | push =>
+      simp only [List.cons_append, disciplined, Bool.and_eq_true, decide_eq_true_eq] at ha ⊢
+      exact ⟨ha.1, ih _ ha.2⟩
+    | pushIdx a b =>
+      simp only [List.cons_append, disciplined, Bool.and_eq_true, decide_eq_true_eq] at ha ⊢
+      exact ⟨ha.1, ih _ ha.2⟩
+    | lhs => simp only [List.cons_append, disciplined] at ha ⊢; exact ih _ ha
+    | lhsRange n => simp only [List.cons_append, disciplined] at ha ⊢; exact ih _ ha
+    | preOps k => simp only [List.cons_append, disciplined] at ha ⊢; exact ih _ ha
+    | preSt k => simp only [List.cons_append, disciplined] at ha ⊢; exact ih _ ha
+
+/-- blocks that are each disciplined from nothing (they reserve for themselves) can be concatenated -/
+theorem disciplined_flatten_self (blocks : List (List Ev)) (f : Nat) (h : ∀ b ∈ blocks, disciplined 0 b = true) :
+    disciplined f blocks.flatten = true := by
+  induction blocks generalizing f with
+  | nil => rfl
+  | cons b bs ih =>
+    simp only [List.flatten_cons]
+    exact disciplined_append_any b _ f (disciplined_mono b 0 f (Nat.zero_le _) (h b (by simp)))
+      (ih 0 (fun x hx => h x (by simp [hx])))
+
+/-- `push_derivative_dependence(…, n)` reserves `n` and pushes `n` -/
+theorem pushDep_ok (n f : Nat) (rest : List Ev) (hr : disciplined 0 rest = true) :
+    disciplined f (sitePushDep n ++ rest) = true := by
+  unfold sitePushDep Sites.Stack_2
+  simp only [List.cons_append, disciplined]
+  rw [disciplined_pushes n (max f n) rest (by omega)]
+  exact disciplined_mono rest 0 _ (Nat.zero_le _) hr
+
+theorem matmulElem_ok (n : Nat) (l r : Bool) : disciplined 0 (siteMatmulElem n l r) = true := by
+  unfold siteMatmulElem
+  have hl : disciplined 0 [Ev.lhs] = true := rfl
+  cases l <;> cases r <;> simp only [if_true, if_false, Bool.false_eq_true, List.nil_append, List.append_assoc]
+  · exact hl
+  · exact pushDep_ok n 0 _ hl
+  · exact pushDep_ok n 0 _ hl
+  · exact pushDep_ok n 0 _ (pushDep_ok n 0 _ hl)
+
+theorem matmul_ok (elems n f : Nat) (l r : Bool) : disciplined f (siteMatmul elems n l r) = true := by
+  unfold siteMatmul
+  apply disciplined_flatten_self
+  intro b hb
+  rw [List.eq_of_mem_replicate hb]
+  exact matmulElem_ok n l r
+
+theorem matmulBandVec_ok (dim ld ud f : Nat) : disciplined f (siteMatmulBandVec dim ld ud) = true := by
+  unfold siteMatmulBandVec
+  apply disciplined_flatten_self
+  intro b hb
+  obtain ⟨i, _, rfl⟩ := List.mem_map.1 hb
+  exact pushDep_ok _ 0 _ rfl
+
 end Adept.RecBuf
